@@ -280,9 +280,14 @@ func init() {
 				}
 				us = append(us, shardUnits(d.Name, bb, n)...)
 			}
+			us = append(us, raceUnits(c06Scenarios(), nil)...)
 			return us
 		},
+		ExeFor: raceExe,
 		Run: func(unit string, env *fw.Env) *fw.Result {
+			if strings.HasPrefix(unit, "race/") {
+				return raceRun("C06", c06Scenarios(), unit, env)
+			}
 			sp := parseSched(unit)
 			for _, sc := range c06Scenarios() {
 				if sc.Name == sp.Name {
